@@ -18,7 +18,8 @@ RULE = ("Hypothesis-drawn block trees with transactions (forks of any shape, spe
         "reference set per key, no duplicates, empty entries ignored); Wallet.get_balance(subset of keys) == reference sum "
         "at the head; all orders agree; every intermediate CoinState (and balances read from it) has the same digest at the "
         "end as when it was returned; before the comparison some balance queries are interrupted by an exception half-way or "
-        "overlapped by a query from a second thread (nothing may be left behind). non-trivial = tree with >= 1 fork whose branches contain different spends and >= 2 "
+        "overlapped by a query from a second thread, and a wallet reads its balance and builds spends from the state (nothing may "
+        "be left behind). non-trivial = tree with >= 1 fork whose branches contain different spends and >= 2 "
         "distinct orders; distinct = digest of (ops, orders).")
 ASSUMPTIONS = ["test configuration (fast scrypt stand-in, checkpoints off)", "replay-from-genesis reference in vf/refmodel.py"]
 MIN_NONTRIVIAL = {"quick": 60, "thorough": 600}
@@ -169,6 +170,26 @@ class Checker:
                     BAL.uto_apply_block = orig
                 self.stats["interrupted_or_overlapped_queries"] = self.stats.get("interrupted_or_overlapped_queries", 0) + 1
 
+    def exercise_readers(self, cs, name):
+        """operations that only READ a chain state (balance of a wallet, building spends from it -- twice) must leave it as it
+        is: the comparison with the reference happens right afterwards"""
+        from skepticoin.wallet import Wallet, create_spend_transaction
+        from skepticoin.signing import SECP256k1PublicKey
+        from vf.keys import KEYS
+        try:
+            for bid in list(cs.block_by_hash.keys())[:3]:
+                cs.public_key_balances_by_hash[bid]
+            w = Wallet({k.pub: k.priv for k in KEYS}, [k.pub for k in KEYS[::2]], {k.pub: "x" for k in KEYS[1::2]})
+            total = w.get_balance(cs)
+            for amount in (1, max(1, total // 3), max(1, total - 1)):
+                try:
+                    create_spend_transaction(w, cs, amount, 0, SECP256k1PublicKey(KEYS[0].pub), SECP256k1PublicKey(KEYS[1].pub))
+                except Exception:
+                    pass
+            self.stats["reader_exercises"] = self.stats.get("reader_exercises", 0) + 1
+        except Exception as e:
+            self.fail("readers", "reader-raised", "order %s: a read-only use of the chain state raised %r" % (name, e))
+
     def deliver(self, order, validated, name, rnd=None, snapshots=False, probe=False):
         from skepticoin.coinstate import CoinState
         b = self.b
@@ -187,6 +208,7 @@ class Checker:
                 snaps.append((cs, b.coinstate_digest(cs), balances_digest(cs, bids), bids))
         if probe:
             self.interrupted_and_concurrent_queries(cs, name)
+            self.exercise_readers(cs, name)
         self.check_state(cs, name)
         if rnd is not None:
             self.wallet_check(cs, rnd)
